@@ -746,7 +746,7 @@ def gen_unlocked_case(rng, cid, p_violation=0.05, ncustom=None):
     boosted = None
     scenario = []          # crates whose certification must NOT be papered over by blanket exemptions
     if rng.random() < 0.45:
-        boosted = boost_unpublished(rng, pkgs, store, reg, crits, notes)
+        boosted = boost_unpublished(rng, pkgs, store, reg, crits, notes, peers_struct)
     if rng.random() < 0.4:
         boost_shared_exemption(rng, pkgs, store, crits, notes)
     if peers_struct and rng.random() < 0.3:
@@ -770,6 +770,45 @@ def gen_unlocked_case(rng, cid, p_violation=0.05, ncustom=None):
         case["boosted_unpublished"] = boosted
     if scenario:
         case["scenario"] = scenario
+    return finalize(case)
+
+
+def boost_fresh_peer_vs_violation(rng, case):
+    """unlocked: a peer serves an audit that is NOT yet in imports.lock (fresh) for a version of the graph which a
+    violation entry of the project (or of another peer) covers for an implied criterion — the fresh audit is as much in
+    conflict with the violation as a recorded one"""
+    store = case["store_struct"]
+    peers_struct = case.get("peers_struct") or {}
+    notes = Notes()
+    notes.n = 4000
+    ok_peers = [pn for pn, imp in sorted(store["imports"].items())
+                if imp["url"][0] in peers_struct and not any(k in BUILTINS for k in imp.get("criteria-map", {}))]
+    cands = sorted({p["name"] for p in case["graph"]["packages"] if p["source"] == "registry"})
+    if not ok_peers or not cands:
+        return case
+    peer = rng.choice(ok_peers)
+    imp = store["imports"][peer]
+    n = rng.choice([c for c in cands if c not in imp.get("exclude", [])] or cands)
+    if n in imp.get("exclude", []):
+        return case
+    v = rng.choice([vstr(p) for p in case["graph"]["packages"] if p["name"] == n and "@" not in vstr(p)] or [None])
+    if v is None:
+        return case
+    pf = peers_struct[imp["url"][0]]
+    other = rng.choice([x for x in VERSIONS if x != v])
+    audit = rng.choice([{"kind": "full", "version": v, "criteria": ["safe-to-deploy"], "notes": notes()},
+                        {"kind": "delta", "from": other, "to": v, "criteria": ["safe-to-deploy"], "notes": notes()},
+                        {"kind": "delta", "from": v, "to": other, "criteria": ["safe-to-deploy"], "notes": notes()}])
+    pf["audits"].setdefault(n, []).append(audit)
+    lock = store["lock"]["audits"].get(peer)
+    if lock:
+        # make sure it is fresh: nothing equal in the lock
+        lock["audits"][n] = [a for a in lock["audits"].get(n, []) if (a.get("kind"), a.get("version"), a.get("from"), a.get("to")) !=
+                             (audit.get("kind"), audit.get("version"), audit.get("from"), audit.get("to"))]
+        if not lock["audits"][n]:
+            del lock["audits"][n]
+    viol = {"kind": "violation", "violation": rng.choice(["*", "=" + v]), "criteria": [rng.choice(["safe-to-run", "safe-to-deploy"])], "notes": notes()}
+    store["audits"].setdefault(n, []).append(viol)
     return finalize(case)
 
 
@@ -930,7 +969,7 @@ def boost_shared_exemption(rng, pkgs, store, crits, notes):
         store[tbl].pop(n, None)
 
 
-def boost_unpublished(rng, pkgs, store, reg, crits, notes):
+def boost_unpublished(rng, pkgs, store, reg, crits, notes, peers_struct=None):
     """an audit-as-crates-io crate whose own version is not on crates.io, a STALE `unpublished`
     record for it in imports.lock (audited as a version that is no longer the closest published
     one), and an audit of the version it is audited as today"""
@@ -976,6 +1015,23 @@ def boost_unpublished(rng, pkgs, store, reg, crits, notes):
                 {"kind": "full", "version": published[0], "criteria": ["safe-to-deploy"] + [c for c in crits if c not in BUILTINS], "notes": notes()})
             return p["name"]
     reg[p["name"]] = [{"version": x, "by": rng.choice([1, 2, 3]), "when": rng.choice(DATES[:6])} for x in sorted(published, key=VERSIONS.index)]
+    if peers_struct and rng.random() < 0.55:
+        # variant: nothing recorded yet; the version it is audited as today is audited locally AND a peer serves a full
+        # audit of the exact (unpublished) version: two competing ways to certify the crate, one through a record that is
+        # fresh on the first run and stale on the next
+        ok = [pn for pn, imp in sorted(store["imports"].items())
+              if imp["url"][0] in peers_struct and not any(k in BUILTINS for k in imp.get("criteria-map", {}))
+              and p["name"] not in imp.get("exclude", [])]
+        if ok:
+            peer = rng.choice(ok)
+            peers_struct[store["imports"][peer]["url"][0]]["audits"].setdefault(p["name"], []).append(
+                {"kind": "full", "version": v, "criteria": ["safe-to-deploy"], "notes": notes()})
+            store["lock"]["unpublished"].pop(p["name"], None)
+            if peer in store["lock"]["audits"]:
+                store["lock"]["audits"][peer].get("audits", {}).pop(p["name"], None)
+            store["audits"][p["name"]] = [{"kind": "full", "version": cur, "criteria": ["safe-to-deploy"] + [c for c in crits if c not in BUILTINS], "notes": notes()}]
+            store["exemptions"].pop(p["name"], None)
+            return p["name"]
     recs = [{"version": v, "audited_as": old}]
     if rng.random() < 0.3:
         recs.append({"version": v, "audited_as": cur})
@@ -1063,6 +1119,10 @@ def gen_history(rng, cid, length=None):
         # the store as generated passes a plain `cargo vet` (stale imports.lock records and all)
         blanket_exemptions(store, base["graph"]["packages"], crits, notes, base["boosted_unpublished"])
         add(["check"])
+        if rng.random() < 0.75:
+            # the pruning update twice (or followed by a plain check) against the same remote state
+            add(["prune"])
+            add(["prune"] if rng.random() < 0.6 else ["check"])
     elif base.get("scenario") and rng.random() < 0.75:
         # a planted scenario: everything else is exempted so that the store vets as generated, and the history
         # starts with the commands the scenario is about
@@ -1153,6 +1213,33 @@ def gen_history(rng, cid, length=None):
     case = {"id": cid, "kind": "history", "graph": base["graph"], "store_struct": store,
             "store": render_store(store), "steps": steps}
     return case
+
+
+def scenario_unpublished_vs_peer(cid, k=0):
+    """deterministic history: a path crate declared audit-as-crates-io whose version crates.io does not serve; the closest
+    published version is audited locally, a configured peer serves a full audit of the exact version, imports.lock records
+    nothing yet.  The pruning update is then run repeatedly against the same remote state (and a plain check after it):
+    two ways of certifying the crate compete, one of them through a record that is fresh on the first run only."""
+    v, cur = [("4.0.0", "3.0.0"), ("5.0.0", "4.0.0"), ("4.0.0", "2.0.0")][k % 3]
+    pkgs = [{"name": "wsaaa", "version": "1.0.0", "source": "path", "workspace": True,
+             "deps": [{"name": "fpxxx", "version": v, "source": "path", "kinds": ["normal"]}]},
+            {"name": "fpxxx", "version": v, "source": "path", "workspace": False, "deps": []}]
+    peer, url = PEERS[0]
+    store = {"criteria": {}, "policy": {"fpxxx": {"audit-as-crates-io": True}},
+             "imports": {peer: {"url": [url]}}, "exemptions": {},
+             "audits": {"fpxxx": [{"kind": "full", "version": cur, "criteria": ["safe-to-deploy"], "notes": "the published one"}]},
+             "wildcard_audits": {}, "trusted": {},
+             "lock": {"audits": {peer: {"criteria": {}, "audits": {}, "wildcard_audits": {}}}, "publisher": {}, "unpublished": {}}}
+    peers = {url: {"criteria": {}, "audits": {"fpxxx": [{"kind": "full", "version": v, "criteria": ["safe-to-deploy"], "notes": "peer audit of the fork"}]},
+                   "wildcard_audits": {}, "trusted": {}}}
+    registry = {"users": [[1, "user1", "User 1"]], "packages": {"fpxxx": [{"version": cur, "by": 1, "when": "2022-01-01"}]},
+                "meta": {"fpxxx": {"description": "whatever"}}}
+    remote = render_remote(peers, registry)
+    cmds = [[["prune"], ["prune"], ["check"], ["prune"]],
+            [["check"], ["prune"], ["check"], ["prune"]],
+            [["prune"], ["check"], ["prune"], ["regenerate", "imports"]]][k % 3]
+    return {"id": cid, "kind": "history", "graph": {"packages": pkgs}, "store_struct": store,
+            "store": render_store(store), "steps": [{"args": a, "remote": remote} for a in cmds]}
 
 
 # ---------------------------------------------------------------------------
@@ -1513,10 +1600,22 @@ def gen_validate_case(rng, cid):
             url = rng.choice(sorted(base["peers_struct"]))
             pf = base["peers_struct"][url]
             k = rng.random()
-            if k < 0.3:
+            if k < 0.2:
                 pf["criteria"]["safe-to-run"] = {"description": "peer shadows builtin"}
                 faults.append({"kind": "peer-table-shadow"})
-            elif k < 0.6:
+            elif k < 0.5:
+                # a criterion of the peer that the import MAPS but that carries neither a description nor a
+                # description-url (cargo-vet refuses the import: MissingCriteriaDescription); imports.lock may already
+                # hold the criterion, with a description, from an earlier run
+                peer = next((pn for pn, imp in sorted(store["imports"].items()) if imp["url"][0] == url), None)
+                if peer is not None:
+                    pf["criteria"]["peer-nd"] = {"implies": rng.choice([[], ["safe-to-run"]])}
+                    store["imports"][peer].setdefault("criteria-map", {})["peer-nd"] = ["safe-to-run"]
+                    lockf = store["lock"]["audits"].get(peer)
+                    if lockf is not None and rng.random() < 0.6:
+                        lockf.setdefault("criteria", {})["peer-nd"] = {"description": "as recorded earlier"}
+                    faults.append({"kind": "peer-criterion-no-description", "url": url})
+            elif k < 0.7:
                 pf["criteria"]["pl-a"] = {"description": "x", "implies": ["pl-b"]}
                 pf["criteria"]["pl-b"] = {"description": "x", "implies": ["pl-a"]}
                 faults.append({"kind": "peer-table-cycle"})
@@ -1656,6 +1755,16 @@ def gen_serde_case(rng, cid):
             store["policy"][f"{n}:2.0.0-rc.1+build.5"] = {"dependency-criteria": {"dep-x": crit_list(rng, crits, allow_empty=True)}}
     if rng.random() < 0.3:
         store["default-criteria"] = rng.choice(crits)
+    # the same entry twice, equal in every field (two reviewers certifying the same delta, a source aggregated twice):
+    # a store cargo-vet holds and writes with BOTH copies
+    if rng.random() < 0.5:
+        import copy
+        tables = [store["audits"], store["wildcard_audits"], store["trusted"], store["exemptions"], store["lock"]["publisher"]]
+        tables += [f.get("audits", {}) for f in store["lock"]["audits"].values()]
+        tables = [t for t in tables if any(t.values())]
+        for t in rng.sample(tables, min(len(tables), rng.choice([1, 1, 2]))):
+            l = t[rng.choice(sorted(k for k, v in t.items() if v))]
+            l.append(copy.deepcopy(rng.choice(l)))
     return finalize({"id": cid, "kind": "serde", "store_struct": store})
 
 
@@ -1691,6 +1800,14 @@ def gen_unpack_case(rng, cid):
             {"path": f"{pre}/src/lib.rs", "kind": "file", "content": "duplicate entry"},
             {"path": f"{pre}/lying.rs", "kind": "file", "content": "short", "size": 4000},
             {"path": f"{pre}/emptydir", "kind": "dir"},
+            # the real name travels in a GNU long-name / PAX record; the header's own name is a harmless stand-in
+            {"path": f"{pre}/innocent.rs", "long_name": "other-1.0.0/lib.rs", "kind": "file", "content": "overwritten via long name"},
+            {"path": f"{pre}/innocent2.rs", "long_name": "../evil-long.txt", "kind": "file", "content": "evil"},
+            {"path": f"{pre}/stand-in", "long_name": f"{pre}/.cargo-ok", "kind": "file", "content": "ok"},
+            {"path": f"{pre}/stand-in2", "long_name": f"{pre}/sub/.cargo-ok", "pax": True, "kind": "file", "content": "ok"},
+            {"path": f"{pre}/short.rs", "long_name": f"{pre}/" + "deep/" * 25 + "honest.rs", "kind": "file", "content": "honest long path"},
+            {"path": f"{pre}/short2.rs", "long_name": f"{pre}/" + "d2/" * 40 + "honest.rs", "pax": True, "kind": "file", "content": "honest pax path"},
+            {"path": f"{pre}/innocent3.rs", "long_name": "other-1.0.0/pax.rs", "pax": True, "kind": "file", "content": "overwritten via pax"},
         ]
         for e in rng.sample(pool, rng.choice([1, 1, 2, 3])):
             hostile.append(e)
